@@ -327,7 +327,8 @@ class C06(Prop):
                 except Exception as e:
                     why = classify_outcome(s, e)
                     if why:
-                        fails.append(fail('leak', 'tolerance=%d: %s; input %s' % (tol, why, short(repr(s), 120))))
+                        fails.append(fail('leak', 'tolerance=%d: %s; input %s' % (tol, why, short(repr(s), 120)),
+                                          tol=tol))
                 finally:
                     install.STEP_BUDGET['limit'] = None
                 n[d] = ctx.case_info.get('steps', 0)
@@ -448,14 +449,24 @@ def _d24(prop, p, fails, rerun):
     `\begin{name}`, once in the `\end{name}` that tolerant mode inserts - so
     the size of the result doubles with every level of such nesting."""
     import re
-    if findings.checks_of(fails) - {'super-polynomial-output', 'leak', 'timeout', 'step-budget', 'loop-budget'}:
+    if findings.checks_of(fails) - {'super-polynomial-output', 'leak', 'timeout', 'step-budget',
+                                    'loop-budget', 'probe:read'}:
         return False
-    if any(f.get('tol') != 1 for f in fails if f['check'] != 'timeout'):
+    if any(f.get('tol') != 1 for f in fails if f['check'] not in ('timeout', 'probe:read')):
         return False
-    if any(f['check'] == 'leak' and 'MemoryError' not in f['detail'] for f in fails):
+    if any(f['check'] in ('leak', 'probe:read') and 'MemoryError' not in f['detail'] for f in fails):
         return False
     text = p['unit'] * 3 if p.get('w') == 'growth' else p['s']
-    if not re.search(r'\\begin\s*\{[^{}]*\\begin', text):
+    # a \begin inside the (possibly unclosed) name group of another \begin,
+    # at any brace depth
+    from tsv.props.c08 import _name_extent
+    nested = False
+    for m in re.finditer(r'\\begin\s*\{', text):
+        a, b = _name_extent(text, m.end())
+        if '\\begin' in text[a:b]:
+            nested = True
+            break
+    if not nested:
         return False
     q = dict(p)
     for key in ('s', 'unit'):
